@@ -1312,14 +1312,16 @@ class ThreadsafeForwardingResult(TestResult):
                 self.result.tags(*self._global_tags)
             if self._any_tags(self._test_tags):
                 self.result.tags(*self._test_tags)
-            self._test_tags = set(), set()
             try:
                 method(test, *args, **kwargs)
             finally:
                 self.result.stopTest(test)
         finally:
+            # This test's buffered state is spent even if the target raised:
+            # it must not be replayed onto the next test.
+            self._test_tags = set(), set()
+            self._test_start = None
             self.semaphore.release()
-        self._test_start = None
 
     def addError(self, test, err=None, details=None):
         self._add_result_with_semaphore(
